@@ -425,6 +425,40 @@ fn main() {
     let mut out = Out::new(&a.out);
     let mut r = Rng::new(a.seed);
 
+    if let Some(f) = &a.replay {
+        // re-run exactly one stored case (the `input` of a replay file) on the implementation
+        let v: serde_json::Value = serde_json::from_str(&std::fs::read_to_string(f).unwrap()).unwrap();
+        let c = if v.get("first_disagreement").is_some() { &v["first_disagreement"] } else { &v };
+        let (kind, inp) = (c["kind"].as_str().unwrap_or(""), &c["input"]);
+        if kind.ends_with("roundtrip") {
+            let mut md = MetadataMap::new();
+            for (k, val) in hm_from_json(&inp["md"]).iter() {
+                md.as_mut().append(k.clone(), val.clone());
+            }
+            case_roundtrip(
+                &mut out,
+                inp["code"].as_u64().unwrap() as u32,
+                &String::from_utf8(unhex(inp["msg"].as_str().unwrap())).unwrap(),
+                &unhex(inp["details"].as_str().unwrap()),
+                md,
+                false,
+            );
+        } else if kind.ends_with("hostile") {
+            let e = hm_from_json(&inp["headers"])
+                .iter()
+                .map(|(k, v)| (k.as_str().to_string(), v.as_bytes().to_vec()))
+                .collect();
+            case_hostile(&mut out, e, false);
+        } else if kind.starts_with("infer") {
+            let t = if inp["trailers"].is_null() { None } else { Some(hm_from_json(&inp["trailers"])) };
+            case_infer(&mut out, inp["http"].as_u64().unwrap() as u16, t);
+        } else {
+            case_tables(&mut out, true);
+        }
+        out.finish(IMPORTS, "replay of one stored case", json!({}));
+        return;
+    }
+
     // corpus: witnesses of the fixed findings and hand-picked boundary cases, always first
     for d in DET_VALUES {
         case_hostile(&mut out, vec![("grpc-status".into(), b"3".to_vec()), ("grpc-status-details-bin".into(), d.to_vec())], true);
